@@ -17,8 +17,9 @@ CHECKS = {
               "quantized_bits / quantized_linear / quantized_relu (plain, leaky) / quantized_tanh / quantized_sigmoid lies in the "
               "declared [lo,hi], that at most 2^bits codes exist, that min()/max() enclose and range() enumerates exactly the reachable "
               "codes. The model (Quant/Fixed.v) is compared exactly, float32 bit pattern by bit pattern, with the eager TensorFlow "
-              "implementation at every rounding breakpoint +-1ulp, edges, zeros/denormals and random tensors."),
-        design_ref="DESIGN.md section 5 C01, section 10",
+              "implementation at every rounding breakpoint +-1ulp, edges, zeros/denormals and random tensors."
+              " The float32 bridge is proved (Quant/FLExact.v): the rounding function fl of the float model is the identity on every k*2^e with |k| < 2^24 in the normal range, hence every representable code times its step IS a float32 value (C01_code_times_step_is_a_float32_value, C01_qbits_output_is_a_float32_value)."),
+        design_ref="DESIGN.md section 5 C01, section 10, section 10.10",
         note=(TB_COMMON + "TensorFlow float32 kernels are modelled as exact rational arithmetic inside the hypothesis |x| < 2^24 output-grid "
               "steps (exactness argument in DESIGN.md 2.2); hard/smooth sigmoid use the explicit 24-bit rounding function fl of Base/FL.v; "
               "'real' sigmoid/tanh are oracles checked through the grid/range predicate; non power-of-two constant alpha compared within "
@@ -109,8 +110,9 @@ CHECKS = {
               "(1-f) times it, round-through has the value round(e) and the gradient of e; instances: identity (fixed point, po2, "
               "constant-scale binary/ternary), (leaky, bounded) ReLU, quantized_linear (1 inside the clip range, 0 outside), tanh' for unscaled "
               "binary/ternary (oracle). tf.GradientTape gradients of the implementation are compared with the dual-number evaluation of the "
-              "hand-written return expression at random points and at every kink +-1ulp."),
-        design_ref="DESIGN.md section 5 C06, section 10",
+              "hand-written return expression at random points and at every kink +-1ulp."
+              " The straight-through return expressions of every quantizer class are REGENERATED on every run (tools/translate/retgen.py -> coq/gen/RetGen.v) and Link/RetLink.v proves for each, for every surrogate / quantized value / noise factor, that its gradient is the surrogate's (STE, plain) resp. (1-f) times it (use_ste=False); quantized_linear with automatic scales is generated."),
+        design_ref="DESIGN.md section 5 C06, section 10, section 10.10",
         note=(TB_COMMON + "TensorFlow's differentiation conventions are encoded in Base/Texp.v (clip closed interval, relu'(0)=alpha, "
               "stop_gradient, where by forward value) and re-validated on every run. The texp per quantizer is a hand transcription of the "
               "return expression. bernoulli/stochastic_*/ulaw/hswish not covered."),
@@ -215,8 +217,9 @@ CHECKS = {
               "activation; for all weight-bearing layers and the three recurrent cells (both implementations, reset_after, dropout branches) "
               "erasing the quantizers gives the same data flow whichever quantizers are configured; reported quantizers are the applied ones in "
               "weight order. Differential: random geometries/weights/quantizers against stock Keras layers with quantizer(weights); cells "
-              "against the stock cell equations. One genuine defect repaired (QGRUCell, fix: commit)."),
-        design_ref="DESIGN.md section 5 C11, section 10",
+              "against the stock cell equations. One genuine defect repaired (QGRUCell, fix: commit)."
+              " deconv_output_length (the output size of QConv2DTranspose) is regenerated as well (tools/translate/deconvgen.py): Keras formulas for every padding / output_padding, valid length = max(written positions, stride slots)."),
+        design_ref="DESIGN.md section 5 C11, section 10, section 10.10",
         note=(TB_COMMON + "TensorFlow/Keras ops are uninterpreted (bilinearity etc. is not needed for drop-in equality). Op aliases and the "
               "weight-attribute list of the translator are trusted; it fails closed on unknown syntax. Recurrent wrapper layers do not build "
               "under the pinned Keras 3 (known finding): the cells are driven through their unbound call."),
@@ -306,8 +309,9 @@ CHECKS = {
               "different limits), filter-scaling runs with exception patterns, and a comparison of the quantizers the built trial model really carries with the tuner's choices. Four genuine defects repaired. "
               "_adjust_limit (AutoQ/Limits.v): a short per-class limit list is padded role by role from the default (3- or 4-element, the recurrent entry skipped for "
               "non-recurrent classes), complete lists are untouched, the one-slice padding is refuted; every adjusted list of the runs is compared with an independent "
-              "role-by-role reference and with the Coq pad_limit."),
-        design_ref="DESIGN.md section 5 C20, section 10.4, 10.8",
+              "role-by-role reference and with the Coq pad_limit."
+              " ForgivingFactorBits._act_size is REGENERATED on every run (tools/translate/sizegen.py -> coq/gen/SizeGen.v) over layer kinds x descriptors of the activation object; Link/SizeLink.v: whenever the code returns a size it is the model's, quantizer objects are always sized (genuine defect repaired, fix 608f79a), fused plain activations count at the reference width."),
+        design_ref="DESIGN.md section 5 C20, section 10.4, 10.8, 10.10",
         note=(TB_COMMON + "The delta theorems use Coq's Reals: the standard library's real-number axioms (ClassicalDedekindReals.sig_forall_dec, "
               "sig_not_dec, FunctionalExtensionality.functional_extensionality_dep, Classical_Prop.classic) are the only assumptions, as Print "
               "Assumptions reports; everything else is closed. re.match is an oracle table; the installed keras_tuner does not import (known "
